@@ -71,7 +71,7 @@ def register(fixed, known):
     known("C18", "C18.fields", "models.pddl_action", "Action.change_signature", "field:universal_effects", "universal effects keep the old parameter names", kf8, "fixes/demos.py K8")
     known("C18", "C18.pairs", "models.pddl_precondition", "Precondition.change_signature", "nested-pairs", "(in)equality pairs of nested conditions keep the old names", kf8)
     kf9 = "needs print-option parameters on ConditionalEffect / UniversalEffect / UniversalPrecondition printers and on Action.effects_to_pddl"
-    known("C08", "C08.options", "models.pddl_precondition", "Precondition._print_self", "call:str(operand)",
+    known("C08", "C08.options", "models.pddl_precondition", "Precondition.print", "call:str(operand)",
           "a nested condition is printed simplified at 2 digits although the exporter asked for unsimplified text", kf9, "fixes/demos.py K9")
     known("C08", "C08.options", "models.conditional_effect", "ConditionalEffect.__str__", "call:str(self.antecedents)", "antecedents of a when-effect are printed simplified at 2 digits", kf9, "fixes/demos.py K9")
     known("C08", "C08.options", "models.pddl_precondition", "UniversalPrecondition.__str__", "call:super()._print_self()", "the body of a forall precondition is printed simplified at 2 digits", kf9)
